@@ -190,10 +190,23 @@ def main():
             dt = float(rng.uniform(0.1, 3.0))
             ta = TimeAxis(-(N // 2) * dt, N, dt, atype="complete")
             y = rng.randn(N) + 1j * rng.randn(N)
-            rp = dict(kind="random-complete", N=N, dt=dt,
+            # the data in the representations a user may hand in: complex,
+            # real float, integer-valued (int dtype); plain lists are
+            # refused by the constructor
+            form = ("complex", "real", "int")[(N + r) % 3]
+            if form == "real":
+                y = numpy.real(y)
+                yin = y.copy()
+            elif form == "int":
+                y = numpy.round(3 * numpy.real(y))
+                yin = y.astype(int)
+            else:
+                yin = y.copy()
+            y = numpy.asarray(y, dtype=complex)
+            rp = dict(kind="random-complete", N=N, dt=dt, data_form=form,
                       y=[[z.real, z.imag] for z in y])
             with ck.guarded("round-trip", "complete", rp, rp):
-                F = DFunction(ta, y.copy()).get_Fourier_transform()
+                F = DFunction(ta, yin).get_Fourier_transform()
                 want = dsum(ta.data, y, F.axis.data, +1) * dt
                 sc = max(1.0, float(numpy.abs(want).max()))
                 e = float(numpy.abs(F.data - want).max()) / sc
